@@ -14,6 +14,7 @@ mod tables;
 mod engine;
 mod fen;
 mod ucifam;
+mod lichess;
 
 fn main() {
     let args: Vec<String> = env::args().collect();
@@ -30,6 +31,7 @@ fn main() {
         "engine" => engine::run(rest),
         "fen" => fen::run(rest),
         "uci" => ucifam::run(rest),
+        "lichess" => lichess::run(rest),
         other => {
             eprintln!("unknown family {}", other);
             2
